@@ -78,6 +78,7 @@ where
     if c[deg].is_zero() {
         c[deg] = S::F::one();
     }
+    crate::util::low_zeros(&mut c, seed);
     S::P::from_coefficients_vec(c)
 }
 
